@@ -31,7 +31,7 @@ import z3
 from vf.engine import loader, paths, proxies
 from vf.engine.paths import cur, explore, Undecided, PathEnd
 from vf.engine.proxies import SymBool, SymInt
-from claripy.errors import BackendError, UnsatError
+from claripy.errors import BackendError, UnsatError, ClaripySolverInterruptError
 
 CP_PATH = "claripy/frontend/composite_frontend.py"
 POOL = ["a", "b", "c"]
@@ -109,6 +109,7 @@ class TChild:
     """contract of a child solver (SolverCompositeChild: C11)"""
     n = 0
     all = []        # every child created on the current path (reset per run)
+    faults = False  # C17: children may raise ClaripySolverInterruptError instead of answering a satisfiability check
 
     def __init__(self, constraints=(), variables=(), frozen=False):
         TChild.n += 1
@@ -173,6 +174,9 @@ class TChild:
 
     def check_satisfiability(self, extra_constraints=(), exact=None):
         self.log.append(("check_satisfiability", (), tuple(extra_constraints)))
+        if TChild.faults and cur().choose([True, True], f"child{self.uid}-backend-gives-up") == 1:
+            cur().ghost["child_gave_up"] = True
+            raise ClaripySolverInterruptError("timeout")           # C17: the backend may give up at every solver call
         return "SAT" if cur().branch(self._sat(extra_constraints), f"child{self.uid}-sat") else "UNSAT"
 
     def satisfiable(self, extra_constraints=(), exact=None):
@@ -321,6 +325,7 @@ def rep(c, cf, label, frozen_watch=()):
 
 
 VARSETS = [(), ("a",), ("b",), ("c",), ("a", "b"), ("b", "c"), ("a", "c"), ("a", "b", "c")]
+FAULT_METHODS = ["satisfiable[fault]", "eval[fault]"]
 METHODS = ["_add", "_add[concrete]", "satisfiable", "eval", "batch_eval", "max", "min", "solution", "is_true", "is_false", "branch", "split", "simplify"]
 
 
@@ -336,8 +341,32 @@ def ob_composite(method, tier="quick", part=None):
         TBase.n = 0
         TChild.n = 0
         TChild.all = []
+        TChild.faults = method.endswith("[fault]")
         label = f"CompositeFrontend.{method}"
         cf = mk(CF, c, with_unsat_flag=method in ("satisfiable", "eval"), part=part)
+        if method.endswith("[fault]"):
+            # C17: a child's solver call gives up.  The error must surface as a claripy error and the composite must stay what it was:
+            # Rep holds (in particular a child that was not checked successfully is still marked unchecked), so that every later answer
+            # - also of a branch - is still computed from all constraints
+            x = (TC(VARSETS[1 + c.choose([True] * (len(VARSETS) - 1), "extra-variables")], name="x"),) if c.choose([True, True], "n-extra") == 1 else ()
+            try:
+                if method.startswith("satisfiable"):
+                    r = cf.satisfiable(extra_constraints=x)
+                    c.check(label + "/exact-when-answered", proxies.zbool(r) == ((conj(cf.ghostG) & conj(list(x))) != 0), "satisfiable() answered wrongly")
+                else:
+                    cf.eval(TE(("a",), name="e"), 2, extra_constraints=x)
+            except ClaripySolverInterruptError:
+                c.check(label + "/error-only-if-a-child-gave-up", bool(c.ghost.get("child_gave_up")), "ClaripySolverInterruptError although no child gave up")
+            except UnsatError:
+                pass
+            except (PathEnd, Undecided):
+                raise
+            except Exception as exn:  # noqa
+                c.fail(label + "/raises", f"{type(exn).__name__}: {exn}", kind="raises")
+                return "raised"
+            TChild.faults = False
+            rep(c, cf, label + "[after]", list(cf.ghost_kids))
+            return method
         kids0 = list(cf.ghost_kids)
         try:
             if method == "_add":
